@@ -193,6 +193,16 @@ type task struct {
 	res      *shardResult
 	err      string
 	raceLog  string
+	spin     *spinRec
+}
+
+// spinRec is what the explorer prints when its watchdog expires while a goroutine of the library holds the processor.
+type spinRec struct {
+	Thread   string  `json:"thread"`
+	Site     string  `json:"site"`
+	Choices  []int32 `json:"choices"`
+	NEnabled []int32 `json:"nenabled"`
+	Watchdog int     `json:"watchdog_s"`
 }
 
 func runTask(bin string, t *task, race bool) {
@@ -208,6 +218,18 @@ func runTask(bin string, t *task, race bool) {
 	}
 	b, err := c.CombinedOutput()
 	if err != nil {
+		if i := strings.LastIndex(string(b), "\nSPIN "); i >= 0 {
+			// the explorer's watchdog found a goroutine of the library spinning without a synchronisation operation
+			line := string(b)[i+6:]
+			if j := strings.Index(line, "\n"); j >= 0 {
+				line = line[:j]
+			}
+			var sp spinRec
+			if json.Unmarshal([]byte(line), &sp) == nil {
+				t.spin = &sp
+				return
+			}
+		}
 		t.err = fmt.Sprintf("%v: %s", err, tail(string(b), 3000))
 	}
 	data, rerr := os.ReadFile(t.out)
@@ -445,6 +467,16 @@ func check(prop, tier string) int {
 				continue
 			}
 			nsh++
+			if t.spin != nil {
+				// filed under the property being checked: the scenario was chosen as evidence for it and cannot complete
+				v := violation{prop, prop + ".spin", "the execution cannot complete: library goroutine " + t.spin.Thread + " keeps running without reaching a synchronisation operation (watchdog)"}
+				sig := v.Prop + "|" + v.Clause + "|" + v.Detail
+				if foundBySig[sig+"@"+s.Name] == nil {
+					foundBySig[sig+"@"+s.Name] = &agg{f: &found{V: v, Choices: t.spin.Choices, NEnabled: t.spin.NEnabled, Count: 1}, scn: s.Name, mode: s.Mode}
+				}
+				sum.BoundCompleted = -1
+				continue
+			}
 			if t.err != "" {
 				engineErrs = append(engineErrs, s.Name+": "+t.err)
 			}
@@ -644,7 +676,7 @@ func check(prop, tier string) int {
 			}
 			out, _ := c.CombinedOutput()
 			lastOut = string(out)
-			if strings.Contains(lastOut, "REPRODUCED "+r.sig) || (seqCase != "" && strings.Contains(lastOut, "REPRODUCED")) ||
+			if strings.Contains(lastOut, "REPRODUCED "+r.sig) || (strings.HasSuffix(r.a.f.V.Clause, ".spin") && strings.Contains(lastOut, "\nSPIN ")) || (seqCase != "" && strings.Contains(lastOut, "REPRODUCED")) ||
 				(race && strings.Contains(lastOut, " C19|C19.race|")) { // which of several races of one schedule the detector reports first varies
 
 				okc++
